@@ -48,6 +48,8 @@ class Profile(object):
             'chat': g(sb.play.ChatPacket),
         }
         self.known_cb_play = set(c.get_id(ctx) for c in cb.play.get_packets(ctx))
+        ids = [c.get_id(ctx) for c in cb.play.get_packets(ctx)]
+        self.colliding_cb_play = set(i for i in ids if ids.count(i) > 1)     # C06 known findings: dispatch is ambiguous there
         self.known_cb_login = set(c.get_id(ctx) for c in cb.login.get_packets(ctx))
 
     # ---- clientbound payload builders (the peer's own layouts)
@@ -93,6 +95,14 @@ class Profile(object):
 
     def time_update(self, age, tod):
         return P.VI(self.c['time_update']) + P.L(age) + P.L(tod)
+
+    def known_unhandled(self, n):
+        """A known play packet without built-in reaction carrying the number n, with an id that
+        dispatches unambiguously at this version: time update, else update health."""
+        if self.c['time_update'] not in self.colliding_cb_play:
+            return 'time update', self.time_update(n, 6000)
+        hid = self.cb.play.UpdateHealthPacket.get_id(self.ctx)
+        return 'update health', P.VI(hid) + P.F(1.0) + P.VI(n % (2 ** 31)) + P.F(0.0)
 
     def unknown_id(self, state='play'):
         known = self.known_cb_play if state == 'play' else self.known_cb_login
